@@ -112,7 +112,7 @@ def run(tier='quick', seed=0, budget_s=60.0, jobs=1):
     import qstrader
     from qstrader import settings
     assert os.path.realpath(qstrader.__file__).startswith(os.path.realpath(os.environ.get('QSTRADER_ROOT', '/repo')))
-    settings.PRINT_EVENTS = False
+    settings.PRINT_EVENTS = os.environ.get("PYVC_AMBIENT") == "1"
     t0 = time.time()
     nh, nmax = (300, 60) if tier == 'quick' else (10000, 200)
     acc, failures, samples = {}, [], []
